@@ -122,3 +122,39 @@ param2ast = Contract(
 )
 
 CONTRACTS = [get_function_type, set_value, get_internal_body, rewrite_name, param2ast]
+
+# ------------------------------------------------------------------------------------------- _parse_node_for_arg (C06 / C04: choices)
+_C = ("node", "ast.Constant", {"value": "str", "kind": None})
+_N = ("node", "ast.Name", {"id": "str", "ctx": ("node", "ast.Load", {})})
+_E = ("node", "ast.Constant", {"value": ("lit", Ellipsis), "kind": None})
+
+
+def _tup(elts):
+    return ("node", "ast.Tuple", {"elts": ("list", list(elts)), "ctx": ("node", "ast.Load", {})})
+
+
+_PNA_SHAPES = {"C": [_C], "CC": [_C, _C], "CCC": [_C, _C, _C], "N": [_N], "NN": [_N, _N], "CN": [_C, _N], "NC": [_N, _C], "NCC": [_N, _C, _C], "CNC": [_C, _N, _C]}
+_ALLC = ["C", "CC", "CCC"]
+_MIXED = [k for k in _PNA_SHAPES if k not in _ALLC]
+
+parse_node_for_arg = Contract(
+    "doctrans.ast_utils:_parse_node_for_arg",
+    properties=["C06", "C04"],
+    note="the tuple inside a subscripted type (Literal[...] / Union[...] / Tuple[...]): element shapes up to length 3 over Constant / Name; and a bare Name",
+    cases=[Case("tuple:%s" % k, {"_required": "bool", "action": None, "choices": None, "node": _tup(v), "typ": "str"}) for k, v in _PNA_SHAPES.items()]
+    + [Case("name", {"_required": "bool", "action": None, "choices": None, "node": _N, "typ": "str"})],
+    ensures=[
+        Clause("PN-choices-all", "result[2] == tuple(e.value for e in node.elts)", when=["tuple:%s" % k for k in _ALLC],
+               note="a type that enumerates constants only (Literal['a', 'b']) offers exactly those values as choices, in order"),
+        Clause("PN-choices-mixed", "result[2] is None", when=["tuple:%s" % k for k in _MIXED] + ["name"],
+               note="C06: a type that mentions any non-constant alternative (Union[int, None], Tuple[int, ...]) restricts nothing: no choices"),
+        Clause("PN-frame-tuple", "result[0] == _required and result[1] is None and result[3] == typ", when=["tuple:%s" % k for k in _PNA_SHAPES],
+               note="a tuple node changes nothing else"),
+        Clause("PN-name-required", "result[0] == (_required and node.id != 'Optional')", when=["name"], note="only Optional clears the required flag"),
+        Clause("PN-name-typ", "result[3] == (typ if node.id in ('Optional', 'Union') else (node.id if node.id in ('int', 'float', 'complex', 'str', 'bool') else 'str'))",
+               when=["name"], note="scalar names are the type; Optional / Union leave it; anything else falls back to str"),
+        Clause("PN-name-action", "(result[1] == 'append') == (node.id == 'List') and (result[1] is None or result[1] == 'append')", when=["name"]),
+    ],
+    canaries=["result[2] is None", "result[0] == True"],
+)
+CONTRACTS.append(parse_node_for_arg)
